@@ -1037,4 +1037,5 @@ func genC18(r *rng, tier string, emit func(string)) {
 	}
 	// a ServerKeyExchange of the GM ECDHE suites whose named_curve the key agreement cannot serve (harness/c15evil2.go)
 	c15kxGenGM(r, tier, emit)
+	c18EmptyIndefinite(emit) // indefinite-length constructed values without members, op ber2der (c18fix3.go)
 }
